@@ -1,6 +1,7 @@
 /-
-C03W — the closed-world "no lost wake-up" invariant (property C03): stages S1, A, B, C, and
-mid-run RE-WIRING (stages R, RA, RC).
+C03W — the closed-world "no lost wake-up" invariant (property C03): stages S1, A, B, C, mid-run
+RE-WIRING (stages R, RA, RC, RF), and SEVERAL GROUPS — in sequence, re-entrant, nested — (stages D, E,
+F: the last part of this file).
 
 "Whenever simulated time is about to advance, no device is holding a part that is ready to leave
 while one of its downstream neighbours would accept that part if it were offered; every blocked
@@ -35,22 +36,68 @@ STAGE C.  SCOPE (`S4 w ⊇ S3 w`, decidable, preserved by every step: `s4_step`)
 devices of ONE group (`Kind.gpath`, `Kind.ginput`, `Kind.goutput`): any number of group paths that
 share one group input and one group output (a "shared group": several lines use the same
 machines; the part leaves towards the downstream devices of the path it came in through — its
-`stack`).  The group records must be consistent (`GroupOK`): the group of a group path names a
-group input and a group output of the same group and registers the path; a group input has no
-upstream neighbour (it is reached through group paths only — necessary: `group_input_upstream_false`);
-every group path leads out through every group output (that is: there is one group).  The static
+`stack`).  The group records must be consistent (`GroupOK`, part of `SC`): the group of a group path
+names a group input and a group output of the same group and registers the path; a group input has
+no upstream neighbour (it is reached through group paths only — necessary:
+`group_input_upstream_false`); and there is ONE group (`OneGrp`, a conjunct of `S4` / `S4R` of its
+own since the machinery's scope `SC` now admits any number of groups): every group path leads out
+through every group output.  The static
 bound on chains of controllers (gates, group inputs / paths / outputs) replaces the bound on chains
 of gates: every chain of controllers ends within `devs.length` controllers, costs the notification
 dispatch at most `2·devs.length + 1` recursion levels on the way back (`costLe`), and no device
 reaches itself through controllers (`cReach`).  Group devices count as "batch devices": with them
 the conditions `ScrB`, `SizesPos` of the conservation theorem are required (the proof uses C02's
 "no part is held twice").
-NOT covered: several groups (in sequence or nested).  Simulation of such worlds shows no violation,
-but the proof needs an invariant on the group-path stacks of the parts in flight (each entry's group
-owns the output the part will leave through) that the one-group restriction makes trivial.
+Several groups (in sequence, re-entrant, nested) are stages D, E, F below (`S5 cl w ⊇ S4 w`).
 `S1 w ↔ SC w ∧ hasRes w = false ∧ NoBatch w ∧ PartsLeaf w ∧ NR w` (`S1_iff`; `NR`: no script re-wires),
 `S2 w = S3 w ∧ NoBatch w`, `S3 w = S4 w ∧ NoGroups w`,
-`S4 w = (SC w ∧ NR w) ∧ (hasRes w → C11W.S w) ∧ (¬ NoBatch w → ScrB w ∧ SizesPos w)`.
+`S4 w = (SC w ∧ NR w) ∧ (hasRes w → C11W.S w) ∧ (¬ NoBatch w → ScrB w ∧ SizesPos w) ∧ OneGrp w`,
+`S5 cl w = … the same with `OneGrp w ∨ C03Z.Typed cl w` in the place of `OneGrp w`.
+
+STAGES D, E, F: SEVERAL GROUPS.  SCOPE (`S5 cl w ⊇ S4 w`, decidable for a given certificate `cl`;
+`C03Z.ctxInfer w` computes one; preserved by every step: `s5_step`): the world is TYPED by group
+contexts, `C03Z.Typed cl w` (`Proofs/C03ZTyp.lean`) — `cl` assigns to every device the list of the
+ids of the groups it is inside (outermost first); a downstream connection stays in the context (for a
+group path: the devices behind the group stand in the context of the path); the input device of the
+group of a group path stands one level deeper; a group output is the output of its group and its
+context ends with its group; every BATCHER stands at nesting depth ≤ 1 (`BatShallow`; necessary:
+`nested_batcher_false`, finding F14).  This covers groups used one after the other or in parallel
+(stage D: `exChain`), the same group entered through several paths, also twice by the same part with
+other groups in between (stage E: `exShared`, `exReent`), groups nested in groups — a path of an
+inner group a member or the input device of an outer group — (stage F: `exNested`, `exNestBat`), with
+batchers, batches, resources, buffers, gates as in stage C.  The controller-chain bounds `costLe` /
+`cReach` of `SC` are unchanged (they were group-aware already: a group output continues with the
+downstream devices of the paths of ITS group).
+THE INVARIANT "each entry of a part's group-path stack belongs to the group whose output the part
+will leave through": `C03Z.TInv cl w` (`Proofs/C03ZFloor.lean`) — the stack of every part that a
+device (not a sink) holds is TYPED for the context of the device (`C03Z.TS`: reading the stack from
+the innermost entry `g`, the context is `ctx g ++ [group g]` and the rest of the stack is typed for
+`ctx g` — a suffix typing: the empty stack is typed for every context, so a part generated or
+unpacked inside a group is covered: it is genuinely blocked at the group output); the stacks of the
+parts INSIDE a held batch are typed for the context below the stack of the batch; a batch under
+construction has the empty stack.  `C03Z.gchain_ts`: a hand-over chain (`C08W.GChain`) carries typed
+stacks to typed stacks; `C03Z.consS_of_ts`: a typed stack meets, at every group output an offer can
+reach, the output of the group of its innermost path (`consS`), which is what the machinery needs
+(`exits_through_own_output`).  Preservation along the event loop (`C03Z.tinv_step`,
+`Proofs/C03ZWorld.lean`) follows the pattern of the routing invariant C08W (slot view, `Steps`,
+hand-over `tv_bump`; the moves of a batcher — unpacking, packing — need the nesting depth ≤ 1:
+`C03Z.ts_flat`).  `GoodB` has the new clause `k : C03Z.GC w` ("there is one group, or the world is
+typed and `TInv` holds for some certificate"); `GoodD cl w` = `GoodB w`, `NR w`, and — unless there
+is one group only — `Typed cl w ∧ TInv cl w` for the certificate of the scope.
+Theorems: `wake5_init`, `wake5_step`, `wake5_runLoop`, `wake5_reachable`, `wake5_simulate`, `s5_step`,
+`stacks_typed`, `exits_through_own_output`, `blocked_genuinely5`, `no_lost_wakeup5`,
+**`no_lost_wakeup5_reachable`**, `no_lost_wakeup5_simulate`, `no_lost_wakeup5_infer` (the computed
+certificate: a decidable scope of the world alone); re-wiring issued from OUTSIDE (`ReachD`: the
+re-wired world must be in `SC` and typed by the same certificate — decidable on the current world):
+`S5.rewire`, `wake5_rewire`, `wake5_rewire_reachable`, **`no_lost_wakeup5_rewire_reachable`**.
+NOT covered (`no_lost_wakeup5_partial`): batchers at nesting depth ≥ 2 (FALSE: `nested_batcher_false`);
+a group whose paths stand in different contexts; re-wiring IN SCRIPTS together with several groups
+(`S5` requires `NR`; the stages R … RF keep `OneGrp`).
+Changed with respect to the one-group version of this file: `GoodB` (clause `k`), `GoodF` (clause
+`o : OneGrp w`), `S4`, `S4R` (conjunct `OneGrp w`; the worlds are the same as before); the helper
+theorems stated for the machinery's invariant `G` — `wakeB_exec`, `wake_w3_of`,
+`blocked_genuinely_of`, `quiescent_of` — take the additional hypothesis `C03Z.GC w` (for one group:
+`Or.inl`), since `G.sc : SC w` no longer implies that there is one group only.
 
 RE-WIRING.  The machinery's scope `SC w` (decidable) admits `rewire x ups` in scripts:
   * `RewOK w x ups` (per operation, a condition on the static world, independent of the order in
@@ -308,7 +355,7 @@ theorem settled_of_noBatch {w : World} (hb : NoBatch w) : Settled w :=
 
 theorem Good.goodB {w : World} (h : Good w) : GoodB w :=
   ⟨((good_iff w).mp h).1, (fun hr => by rw [h.s1.noRes] at hr; cases hr),
-    fun hn => absurd h.s1.noBatch hn, Or.inl h.s1.nr⟩
+    fun hn => absurd h.s1.noBatch hn, Or.inl h.s1.nr, C03Z.gc_noGrp (noGrp_of_noBatch h.s1.noBatch)⟩
 
 /-- the invariant of stage A: that of stage B, without batchers and batch-generating sources -/
 structure GoodA (w : World) : Prop where
@@ -426,11 +473,12 @@ theorem wakeC_init {w : World} (hs : S4 w) (hi : C01.Inv w.env) (h0 : 0 ≤ w.no
     ⟨hs.1.1, fun _ => partsLeaf_fresh hf.1, hi, h0, he, heldValid_fresh hf.1,
       kidsValid_of_leaf (partsLeaf_fresh hf.1), stkOK_of_noParts hf.1.1,
       wr_fresh hf.2.1 (fun hr => (hf.2.2 hr).2.2.1), (fun _ hx => nomatch hx), wakeG_fresh hf.1⟩
-  refine ⟨hg.simulateInitG, fun hr => ?_, fun hn => ?_, Or.inl (hs.1.2.of_sw (sw_simulateInit w))⟩
+  refine ⟨hg.simulateInitG, fun hr => ?_, fun hn => ?_, Or.inl (hs.1.2.of_sw (sw_simulateInit w)),
+    Or.inl (hs.2.2.2.of_sw (sw_simulateInit w).sw_eq)⟩
   · rw [hasRes_of_ss (C02V.ss_simulateInit w)] at hr
     exact C11W.inv_simulateInit w (hs.2.1 hr) (hf.2.2 hr)
   · have hn0 : ¬ NoBatch w := fun hb => hn ((noBatch_of_sw (sw_simulateInit w).sw_eq).mpr hb)
-    exact C17W.ci_init w ⟨hf.1, static_of hs.1.1 hs.1.2 (hs.2.2 hn0).1 he, (hs.2.2 hn0).2⟩
+    exact C17W.ci_init w ⟨hf.1, static_of hs.1.1 hs.1.2 (hs.2.2.1 hn0).1 he, (hs.2.2.1 hn0).2⟩
 
 /-- **1B. `wakeB_init`**. -/
 theorem wakeB_init {w : World} (hs : S3 w) (hi : C01.Inv w.env) (h0 : 0 ≤ w.now) (he : EvOK w)
@@ -449,7 +497,8 @@ its part over, or has queued a new attempt (buffer head not yet due), or is flag
 downstream device willing. -/
 theorem wake_passPart {w : World} {d : Nat} (h : G [d] [] [] w) (hn : hasRes w = false)
     (hb : NoBatch w) (hr : NR w) : Good (w.passPart d) :=
-  (good_iff _).mpr ⟨h.passPartG (invB_of_noBatch hb) (settled_of_noBatch hb),
+  (good_iff _).mpr ⟨h.passPartG (invB_of_noBatch hb) (settled_of_noBatch hb)
+      (C03Z.gc_noGrp (noGrp_of_noBatch hb)),
     by rw [hasRes_of_sd (C02V.sd_passPart w d)]; exact hn,
     (noBatch_of_swv (C02V.swv_passPart w d)).mpr hb, hr.of_scripts (C02V.scr_passPart w d)⟩
 
@@ -476,7 +525,8 @@ theorem wake_acceptPart {w : World} (h : Good w) (x p : Nat) (hp : p < w.parts.l
 theorem wake_exec {w : World} (a : Action) (h : G (exemptA a) [] [] w) (hn : hasRes w = false)
     (hb : NoBatch w) (hr : NR w) (ha : ∀ d, a = .fail d → (w.dev d).kind = .processor) :
     Good (w.exec a) :=
-  (good_iff _).mpr ⟨h.execG a ha (invB_of_noBatch hb) (settled_of_noBatch hb) (Or.inl hr),
+  (good_iff _).mpr ⟨h.execG a ha (invB_of_noBatch hb) (settled_of_noBatch hb) (Or.inl hr)
+      (C03Z.gc_noGrp (noGrp_of_noBatch hb)),
     by rw [hasRes_of_ss (nr_exec w a hr)]; exact hn,
     (noBatch_of_sw (sw_exec w a hr).sw_eq).mpr hb, hr.of_sw (sw_exec w a hr)⟩
 
@@ -485,8 +535,8 @@ theorem wake_exec {w : World} (a : Action) (h : G (exemptA a) [] [] w) (hn : has
 invariant of C02 must hold and the batchers must be settled. -/
 theorem wakeB_exec {w : World} (a : Action) (h : G (exemptA a) [] [] w)
     (ha : ∀ d, a = .fail d → (w.dev d).kind = .processor) (hI : InvB w) (hset : Settled w)
-    (hio : IOK w) : G [] [] [] (w.exec a) :=
-  h.execG a ha hI hset hio
+    (hio : IOK w) (hgc : C03Z.GC w) : G [] [] [] (w.exec a) :=
+  h.execG a ha hI hset hio hgc
 
 /-- For every action other than `passPart` the hypothesis of `wake_exec` is `Good w`. -/
 theorem wake_exec' {w : World} (a : Action) (h : Good w) (hp : ∀ d, a ≠ .passPart d)
@@ -656,15 +706,15 @@ theorem registered_refuses {w : World} (h : GoodB w) (y : Nat) (hk : (w.dev y).k
 
 /-- **The three clauses**, from the wake-up invariant `G` and the clause `C11W.Pend` of the resource
 invariant ("a feasible waiting request has a live availability check queued for now"). -/
-theorem wake_w3_of {w : World} (hg : G [] [] [] w) (hp : hasRes w = true → C11W.Pend w) (d p : Nat)
-    (hd : holdsD (w.dev d) = some p) :
+theorem wake_w3_of {w : World} (hg : G [] [] [] w) (hp : hasRes w = true → C11W.Pend w)
+    (hgc : C03Z.GC w) (d p : Nat) (hd : holdsD (w.dev d) = some p) :
     Att w d ∨ BlockedW w d p ∨
       ((w.dev d).waitingDS = true ∧ C11W.QueuedL w .rmCheck w.now pOtherHigh (-1)) := by
   rcases hg.wake d p hd (by simp) with ha | hb
   · exact Or.inl ha
   · by_cases hq : C11W.QueuedL w .rmCheck w.now pOtherHigh (-1)
     · exact Or.inr (Or.inr ⟨hb.1, hq⟩)
-    · exact Or.inr (Or.inl ⟨hb.1, fun y hy => real_of_R_of hg hp hq _ y p (hb.2 y hy)⟩)
+    · exact Or.inr (Or.inl ⟨hb.1, fun y hy => real_of_R_of hg hp hgc hq _ hd hy (hb.2 y hy)⟩)
 
 /-- **The three clauses.**  Every holder `d` of a part `p` has (W1) a live hand-over attempt queued,
 or (W2) is flagged and NO downstream neighbour would accept `p` (`wouldAccept`: what `give` would
@@ -673,12 +723,12 @@ resource manager is queued for the current instant. -/
 theorem wake_w3 {w : World} (h : GoodB w) (d p : Nat) (hd : holdsD (w.dev d) = some p) :
     Att w d ∨ BlockedW w d p ∨
       ((w.dev d).waitingDS = true ∧ C11W.QueuedL w .rmCheck w.now pOtherHigh (-1)) :=
-  wake_w3_of h.g (fun hr => (h.r hr).pend) d p hd
+  wake_w3_of h.g (fun hr => (h.r hr).pend) h.k d p hd
 
 theorem blocked_genuinely_of {w : World} (hg : G [] [] [] w) (hp : hasRes w = true → C11W.Pend w)
-    (hc : ClockAdvances w) (d p : Nat) (hr : ready w d p) : BlockedW w d p := by
+    (hgc : C03Z.GC w) (hc : ClockAdvances w) (d p : Nat) (hr : ready w d p) : BlockedW w d p := by
   have hadv := no_event_now hg.inv hc
-  rcases wake_w3_of hg hp d p hr.1 with ⟨e, he, _, _, _, ht⟩ | hb | ⟨_, hq⟩
+  rcases wake_w3_of hg hp hgc d p hr.1 with ⟨e, he, _, _, _, ht⟩ | hb | ⟨_, hq⟩
   · exfalso
     have := hadv e he
     rw [dueD_of_expired hr.2] at ht
@@ -687,17 +737,17 @@ theorem blocked_genuinely_of {w : World} (hg : G [] [] [] w) (hp : hasRes w = tr
   · exact absurd hq (no_check_of_advance hadv)
 
 theorem quiescent_of {w : World} (hg : G [] [] [] w) (hp : hasRes w = true → C11W.Pend w)
-    (hc : ClockAdvances w) : Quiescent w := by
+    (hgc : C03Z.GC w) (hc : ClockAdvances w) : Quiescent w := by
   rw [quiescent_iff]
   intro d p x hr hx
-  exact (blocked_genuinely_of hg hp hc d p hr).2 x hx
+  exact (blocked_genuinely_of hg hp hgc hc d p hr).2 x hx
 
 /-- **4B. `blocked_genuinelyB`**: when time is about to advance, every ready part is flagged and no
 downstream neighbour would accept it — the answer `give` would return, resources and batch sizes
 included. -/
 theorem blocked_genuinelyB {w : World} (h : GoodB w) (hc : ClockAdvances w) (d p : Nat)
     (hr : ready w d p) : BlockedW w d p :=
-  blocked_genuinely_of h.g (fun hr => (h.r hr).pend) hc d p hr
+  blocked_genuinely_of h.g (fun hr => (h.r hr).pend) h.k hc d p hr
 
 theorem blocked_genuinelyA {w : World} (h : GoodA w) (hc : ClockAdvances w) (d p : Nat)
     (hr : ready w d p) : BlockedW w d p := blocked_genuinelyB h.b hc d p hr
@@ -738,9 +788,9 @@ theorem no_lost_wakeupC_reachable (n : Nat) {w : World} (hs : S4 w) (hi : C01.In
   no_lost_wakeupC (wakeC_reachable n hs hi h0 he hf) hc
 
 /-- Stage C is PARTIAL with respect to "groups" in general: `S4` admits ONE group (shared by any
-number of group paths).  Missing: several groups, in sequence or nested (no counterexample found by
-simulation; the proof would need an invariant tying every entry of a part's group-path stack to the
-group output the part will leave through). -/
+number of group paths).  Several groups — in sequence, re-entrant, nested — are stages D, E, F at
+the end of this file (`no_lost_wakeup5_reachable`; the invariant tying every entry of a part's
+group-path stack to the group output the part will leave through is `C03Z.TInv`). -/
 theorem no_lost_wakeupC_partial (n : Nat) {w : World} (hs : S4 w) (hi : C01.Inv w.env)
     (h0 : 0 ≤ w.now) (he : EvOK w) (hf : FreshA w)
     (hc : ClockAdvances (runLoop n w.simulateInit)) : Quiescent (runLoop n w.simulateInit) :=
@@ -1230,7 +1280,7 @@ theorem goodR_iff (w : World) :
 
 theorem GoodR.goodB {w : World} (h : GoodR w) : GoodB w :=
   ⟨((goodR_iff w).mp h).1, (fun hr => by rw [h.s.2.1] at hr; cases hr),
-    fun hn => absurd h.s.2.2.1 hn, h.ini⟩
+    fun hn => absurd h.s.2.2.1 hn, h.ini, C03Z.gc_noGrp (noGrp_of_noBatch h.s.2.2.1)⟩
 
 theorem goodR_of_goodB {w : World} (h : GoodB w) (hn : hasRes w = false) (hb : NoBatch w) :
     GoodR w := (goodR_iff w).mpr ⟨h.g, hn, hb, h.i⟩
@@ -1623,7 +1673,8 @@ and the scope. -/
 theorem wakeC_rewire {w : World} (hs : S4 w) (h : GoodB w) (hi : Ini w) (x : Nat) (ups : List Nat)
     (hok : RewOK w x ups) (hfin : SC (w.rewire x ups)) :
     GoodB (w.rewire x ups) ∧ S4 (w.rewire x ups) ∧ Ini (w.rewire x ups) := by
-  obtain ⟨h1, h2⟩ := h.rewireD hi hs.1.2 (fun hn => (hs.2.2 hn).1) x ups hok hfin
+  obtain ⟨h1, h2⟩ := h.rewireD hi hs.1.2 (fun hn => (hs.2.2.1 hn).1) x ups hok hfin
+    (fun h1 => absurd hs.2.2.2 h1)
   exact ⟨h1, hs.rewire x ups hfin, h2⟩
 
 /-- **In every reachable state** (events, runs, outside re-wirings) of a fresh world of the scope
@@ -1719,6 +1770,8 @@ theorem GoodE.s2r {w : World} (h : GoodE w) : S2R w := ⟨h.g.sc, h.nb, h.s⟩
 
 theorem GoodE.pend {w : World} (h : GoodE w) (hr : hasRes w = true) : C11W.Pend w := (h.r hr).pend
 
+theorem GoodE.gc {w : World} (h : GoodE w) : C03Z.GC w := C03Z.gc_noGrp (noGrp_of_noBatch h.nb)
+
 theorem GoodE.procs {w : World} (h : GoodE w) (hr : hasRes w = true) :
     ∀ e ∈ w.rm.waiting, ∃ x, e.2 = Cb.proc x := by
   rcases h.g.wr with hn | hreg
@@ -1730,7 +1783,8 @@ theorem wakeE_step {w w' : World} {e : Event} (h : GoodE w) (hst : w.step = some
     GoodE w' := by
   have r := swrw_step w w' e h.g.sc.nc hst
   have hres : hasRes w' = true → hasRes w = true := fun hr => by rw [← hasRes_of_swr' r]; exact hr
-  exact ⟨h.g.stepG (invB_of_noBatch h.nb) (settled_of_noBatch h.nb) h.i hst,
+  exact ⟨h.g.stepG (invB_of_noBatch h.nb) (settled_of_noBatch h.nb) h.i
+      (C03Z.gc_noGrp (noGrp_of_noBatch h.nb)) hst,
     (noBatch_of_swr' r).mpr h.nb,
     fun hr => inv11_es_step (h.r (hres hr)) (h.s (hres hr)).opsOK h.g.sc.nc (h.procs (hres hr)) hst,
     fun hr => (h.s (hres hr)).of_step r, h.i.step (istep_step hst)⟩
@@ -1839,13 +1893,13 @@ theorem wakeE_reachable {w0 w : World} (hs : S2R w0) (hi : C01.Inv w0.env) (h0 :
 theorem wakeE_w3 {w : World} (h : GoodE w) (d p : Nat) (hd : holdsD (w.dev d) = some p) :
     Att w d ∨ BlockedW w d p ∨
       ((w.dev d).waitingDS = true ∧ C11W.QueuedL w .rmCheck w.now pOtherHigh (-1)) :=
-  wake_w3_of h.g h.pend d p hd
+  wake_w3_of h.g h.pend h.gc d p hd
 
 theorem blocked_genuinelyA_rewire {w : World} (h : GoodE w) (hc : ClockAdvances w) (d p : Nat)
-    (hr : ready w d p) : BlockedW w d p := blocked_genuinely_of h.g h.pend hc d p hr
+    (hr : ready w d p) : BlockedW w d p := blocked_genuinely_of h.g h.pend h.gc hc d p hr
 
 theorem no_lost_wakeupA_rewire {w : World} (h : GoodE w) (hc : ClockAdvances w) : Quiescent w :=
-  quiescent_of h.g h.pend hc
+  quiescent_of h.g h.pend h.gc hc
 
 /-- **The closed-world statement of stage A with mid-run re-wiring** (in scripts and from outside):
 whenever the clock is about to advance no ready part could be handed over — resources included,
@@ -1923,11 +1977,12 @@ the world without its scripts: `C11W.Inv (es w [])`, `C17W.CI (es w [])` (`Proof
 
 /-- **The whole scope with mid-run re-wiring.** -/
 def S4R (w : World) : Prop :=
-  SC w ∧ (hasRes w = true → S11R w) ∧ (¬ NoBatch w → ScrB w ∧ C17W.SizesPos w)
+  SC w ∧ (hasRes w = true → S11R w) ∧ (¬ NoBatch w → ScrB w ∧ C17W.SizesPos w) ∧ OneGrp w
 
 instance (w : World) : Decidable (S4R w) := by unfold S4R; infer_instance
 
-theorem S2R.s4r {w : World} (h : S2R w) : S4R w := ⟨h.1, h.2.2, fun hn => absurd h.2.1 hn⟩
+theorem S2R.s4r {w : World} (h : S2R w) : S4R w :=
+  ⟨h.1, h.2.2, fun hn => absurd h.2.1 hn, oneGrp_of_noBatch h.2.1⟩
 
 /-- the class of C11W implies the class "re-wirings aside" -/
 theorem s11R_of_S {w : World} (h : C11W.S w) : S11R w := by
@@ -1947,8 +2002,12 @@ structure GoodF (w : World) : Prop where
   c : ¬ NoBatch w → C17W.CI (es w [])
   cs : ¬ NoBatch w → ScrB w ∧ C17W.SizesPos w
   i : IOK w
+  /-- there is one group only -/
+  o : OneGrp w
 
-theorem GoodF.s4r {w : World} (h : GoodF w) : S4R w := ⟨h.g.sc, h.s, h.cs⟩
+theorem GoodF.s4r {w : World} (h : GoodF w) : S4R w := ⟨h.g.sc, h.s, h.cs, h.o⟩
+
+theorem GoodF.gc {w : World} (h : GoodF w) : C03Z.GC w := Or.inl h.o
 
 theorem GoodF.invB {w : World} (h : GoodF w) : InvB w :=
   fun hnb => (h.c hnb).inv.of_sv (w := es w []) (w' := w) rfl
@@ -1978,12 +2037,12 @@ theorem wakeF_step {w w' : World} {e : Event} (h : GoodF w) (hst : w.step = some
   have r := swrw_step w w' e h.g.sc.nc hst
   have hres : hasRes w' = true → hasRes w = true := fun hr => by rw [← hasRes_of_swr' r]; exact hr
   have hnb : ¬ NoBatch w' → ¬ NoBatch w := fun hn hb => hn ((noBatch_of_swr' r).mpr hb)
-  exact ⟨h.g.stepG h.invB h.settled h.i hst,
+  exact ⟨h.g.stepG h.invB h.settled h.i h.gc hst,
     fun hr => inv11_es_step (h.r (hres hr)) (h.s (hres hr)).opsOK h.g.sc.nc (h.procs (hres hr)) hst,
     fun hr => (h.s (hres hr)).of_step r,
     fun hn => ((h.gci (hnb hn)).step hst).1,
     fun hn => ⟨((h.gci (hnb hn)).step hst).2.scrB, sizesPos_of_swr r.1 (h.cs (hnb hn)).2⟩,
-    h.i.step (istep_step hst)⟩
+    h.i.step (istep_step hst), oneGrp_of_swr h.o r.1⟩
 
 theorem wakeF_runLoop (n : Nat) : ∀ {w : World}, GoodF w → GoodF (runLoop n w) := by
   induction n with
@@ -1996,7 +2055,7 @@ theorem wakeF_runLoop (n : Nat) : ∀ {w : World}, GoodF w → GoodF (runLoop n 
     refine ⟨h.g.setErr _, fun hr => ?_, fun hr => (h.s (hres hr)).of_step r,
       fun hn => ((h.gci (hnb hn)).setErr _).1,
       fun hn => ⟨((h.gci (hnb hn)).setErr _).2.scrB, sizesPos_of_swr r.1 (h.cs (hnb hn)).2⟩,
-      h.i.step (istep_runLoop 0 w)⟩
+      h.i.step (istep_runLoop 0 w), oneGrp_of_swr h.o r.1⟩
     show C11W.Inv (es (w.setErr "fuel") [])
     rw [← es_setErr]
     exact (h.r (hres hr)).mono (C11W.monoS_setErr _ _).toMono
@@ -2016,7 +2075,7 @@ theorem wakeF_runBegin {w : World} (h : GoodF w) (d : Int) : GoodF (w.runBegin d
   have hnb : ¬ NoBatch (w.runBegin d).1 → ¬ NoBatch w := fun hn hb => hn ((noBatch_of_swr' r).mpr hb)
   refine ⟨h.g.runBeginG d, fun hr => ?_, fun hr => (h.s (hres hr)).of_step r, fun hn => ?_,
     fun hn => ⟨scrB_of_kind r.2 (fun y => stat0_kind (stat0_of_swr r.1 y)) (h.cs (hnb hn)).1,
-      sizesPos_of_swr r.1 (h.cs (hnb hn)).2⟩, h.i.step (istep_runBegin w d)⟩
+      sizesPos_of_swr r.1 (h.cs (hnb hn)).2⟩, h.i.step (istep_runBegin w d), oneGrp_of_swr h.o r.1⟩
   · rw [← es_runBegin]
     exact C11W.inv_runBegin (es w []) d (h.r (hres hr))
   · rw [← es_runBegin]
@@ -2035,12 +2094,13 @@ theorem wakeF_init {w : World} (hs : S4R w) (hi : C01.Inv w.env) (h0 : 0 ≤ w.n
     fun hr => by rw [← hasRes_of_swr' r]; exact hr
   have hnb : ¬ NoBatch w.simulateInit → ¬ NoBatch w := fun hn hb => hn ((noBatch_of_swr' r).mpr hb)
   refine ⟨hg.simulateInitG, fun hr => ?_, fun hr => (hs.2.1 (hres hr)).of_step r, fun hn => ?_,
-    fun hn => ⟨scrB_of_kind r.2 (fun y => stat0_kind (stat0_of_swr r.1 y)) (hs.2.2 (hnb hn)).1,
-      sizesPos_of_swr r.1 (hs.2.2 (hnb hn)).2⟩, Or.inr (ini_simulateInit hreg)⟩
+    fun hn => ⟨scrB_of_kind r.2 (fun y => stat0_kind (stat0_of_swr r.1 y)) (hs.2.2.1 (hnb hn)).1,
+      sizesPos_of_swr r.1 (hs.2.2.1 (hnb hn)).2⟩, Or.inr (ini_simulateInit hreg),
+    oneGrp_of_swr hs.2.2.2 r.1⟩
   · rw [← es_simulateInit]
     exact C11W.inv_simulateInit (es w []) (hs.2.1 (hres hr)).nil (hf.2.2 (hres hr))
   · rw [← es_simulateInit]
-    refine C17W.ci_init (es w []) ⟨hf.1, ?_, (hs.2.2 (hnb hn)).2⟩
+    refine C17W.ci_init (es w []) ⟨hf.1, ?_, (hs.2.2.1 (hnb hn)).2⟩
     exact static_of hs.1.es_nil (fun l hl => nomatch hl) (fun l hl => nomatch hl) he
 
 /-- an operation issued from outside that some script of the world contains -/
@@ -2065,7 +2125,7 @@ theorem wakeF_applyOp {w : World} (h : GoodF w) (o : Op) (ho : ∃ l ∈ w.scrip
   refine ⟨h.g.applyOpG o hop h.i ⟨l, hl, hol⟩,
     fun hr => inv11_es_applyOp1 (h.r (hres hr)) o ((h.s (hres hr)).opsOK l hl o hol) hnc,
     fun hr => (h.s (hres hr)).of_swr r hscr, fun hn => (hgci hn).1,
-    fun hn => ⟨(hgci hn).2.scrB, sizesPos_of_swr r (h.cs (hnb hn)).2⟩, ?_⟩
+    fun hn => ⟨(hgci hn).2.scrB, sizesPos_of_swr r (h.cs (hnb hn)).2⟩, ?_, oneGrp_of_swr h.o r⟩
   exact (h.i.step (istep_applyOp w o hnc)).step ⟨rfl, C20W.Pv.of_same rfl⟩
 
 /-- a re-wiring issued from outside (admissible, leaves the world in the scope) -/
@@ -2081,7 +2141,7 @@ theorem wakeF_rewire {w : World} (h : GoodF w) (hi : Ini w) (x : Nat) (ups : Lis
   refine ⟨⟨h.g.rewireD x ups hok hfin (fun z hz => hi.inited hz), fun hr => ?_,
     fun hr => (h.s (hres hr)).of_swr r hscr, fun hn => ci_es_rewire (h.c (hnb hn)) x ups hfin,
     fun hn => ⟨scrB_of_kind hscr (kind_rewire w x ups) (h.cs (hnb hn)).1,
-      sizesPos_of_swr r (h.cs (hnb hn)).2⟩, Or.inr hi'⟩, hi'⟩
+      sizesPos_of_swr r (h.cs (hnb hn)).2⟩, Or.inr hi', oneGrp_of_swr h.o r⟩, hi'⟩
   rw [← es_rewire]
   exact inv11_rewire (h.r (hres hr)) x ups
 
@@ -2115,13 +2175,13 @@ theorem wakeF_reachable {w0 w : World} (hs : S4R w0) (hi : C01.Inv w0.env) (h0 :
 theorem wakeF_w3 {w : World} (h : GoodF w) (d p : Nat) (hd : holdsD (w.dev d) = some p) :
     Att w d ∨ BlockedW w d p ∨
       ((w.dev d).waitingDS = true ∧ C11W.QueuedL w .rmCheck w.now pOtherHigh (-1)) :=
-  wake_w3_of h.g h.pend d p hd
+  wake_w3_of h.g h.pend h.gc d p hd
 
 theorem blocked_genuinelyF {w : World} (h : GoodF w) (hc : ClockAdvances w) (d p : Nat)
-    (hr : ready w d p) : BlockedW w d p := blocked_genuinely_of h.g h.pend hc d p hr
+    (hr : ready w d p) : BlockedW w d p := blocked_genuinely_of h.g h.pend h.gc hc d p hr
 
 theorem no_lost_wakeupF {w : World} (h : GoodF w) (hc : ClockAdvances w) : Quiescent w :=
-  quiescent_of h.g h.pend hc
+  quiescent_of h.g h.pend h.gc hc
 
 /-- **The closed-world statement for the whole scope with mid-run re-wiring** (sources, handlers,
 processors with or without resources, buffers, gates, batchers, batches, one shared group;
@@ -2136,10 +2196,11 @@ theorem s4r_reachable {w0 w : World} (hs : S4R w0) (hi : C01.Inv w0.env) (h0 : 0
     (he : EvOK w0) (hf : FreshA w0) (hreg : C20W.Reg w0) (hr : ReachF w0 w) : S4R w :=
   (wakeF_reachable hs hi h0 he hf hreg hr).1.s4r
 
-/-- What remains PARTIAL with respect to "mid-run re-wiring" in the whole scope is what is partial
-in stage C already: ONE group only (any number of group paths; re-wiring may connect and disconnect
+/-- What remains PARTIAL with respect to "mid-run re-wiring" in the whole scope: re-wiring IN SCRIPTS
+is covered for ONE group only (any number of group paths; re-wiring may connect and disconnect
 group paths, machines inside the group, the group output; a group input keeps `up = []`:
-`group_input_upstream_false`).  Not covered either: `create` (assets constructed mid-run). -/
+`group_input_upstream_false`); with several groups re-wiring is covered when issued from OUTSIDE
+(`no_lost_wakeup5_rewire_reachable`).  Not covered either: `create` (assets constructed mid-run). -/
 theorem no_lost_wakeup_rewire_all_partial {w0 w : World} (hs : S4R w0) (hi : C01.Inv w0.env)
     (h0 : 0 ≤ w0.now) (he : EvOK w0) (hf : FreshA w0) (hreg : C20W.Reg w0) (hr : ReachF w0 w)
     (hc : ClockAdvances w) : Quiescent w :=
@@ -2281,6 +2342,685 @@ example : (runLoop 15 exPathRew.simulateInit).now = 5 ∧
     Att (runLoop 15 exPathRew.simulateInit) 5 ∧
     (runLoop 16 exPathRew.simulateInit).now = 5 ∧
     (runLoop 16 exPathRew.simulateInit).delivered = [0, 2] := by decide
+
+/-! ## STAGES D, E, F: SEVERAL GROUPS (in sequence, re-entrant, nested)
+
+`S5 cl w ⊇ S4 w` — the scope of stage C with "there is one group only" (`OneGrp`) replaced by "one
+group, or the topology is TYPED by group contexts" (`C03Z.Typed cl w`, decidable; `cl` assigns to
+every device its context: the ids of the groups it is inside, outermost first; `C03Z.ctxInfer w`
+computes a candidate).  Typed means: a downstream connection stays in the context (for a group path:
+the devices behind the group are in the context of the path); the input device of the group of a
+group path is one level deeper; a group output is the output of its group and stands in a context
+that ends with its group; and the world is flat (`C03Z.Flat cl`: no nesting — stages D, E: groups
+used one after the other, in parallel, the same group through several paths; batchers anywhere) or
+has no batcher (`C03Z.NoBat w` — stage F: groups nested in groups).
+The invariant: `GoodB` as before; its clause `k : C03Z.GC w` ("one group, or typed stacks") now
+carries `C03Z.TInv cl w`: the group-path stack of every part a device holds is typed for the context
+of the device (`C03Z.TS`; in flat worlds also the stacks of the parts inside held batches).  This is
+the invariant "each entry of a part's stack belongs to the group whose output the part will leave
+through" (`C03Z.consS_of_ts`).
+Re-wiring: in `S5` scripts do not re-wire (`NR`); a re-wiring issued from OUTSIDE is covered if the
+re-wired world is typed again (`ReachD`). -/
+
+theorem S5.sc {cl : List (List Nat)} {w : World} (h : S5 cl w) : SC w := h.1.1
+
+/-- nobody holds anything in a fresh world (slot view) -/
+theorem held_nil_fresh {w : World} (h : C02.Fresh w) : ∀ d ∈ w.devs, (C02V.sdev d).held = [] :=
+  fun d hd => h.2.2.2.2 d hd
+
+/-- **Everything the closed-world induction carries for several groups**: the invariant `GoodB` of
+stages A, B, C (whose clause `k` says "one group, or typed stacks for SOME certificate"), the
+scripts do not re-wire, and — unless there is one group only — the world is typed by the
+certificate `cl` of the scope and the typed-stacks invariant holds for `cl`. -/
+structure GoodD (cl : List (List Nat)) (w : World) : Prop where
+  b : GoodB w
+  nr : NR w
+  t : ¬ OneGrp w → C03Z.Typed cl w ∧ C03Z.TInv cl w
+
+/-- **D1. `wake5_init`**: after `simulateInit` of a fresh world of the scope `S5` the invariant
+holds. -/
+theorem wake5_init {cl : List (List Nat)} {w : World} (hs : S5 cl w) (hi : C01.Inv w.env)
+    (h0 : 0 ≤ w.now) (he : EvOK w) (hf : FreshA w) : GoodD cl w.simulateInit := by
+  have hg : G [] [] [] w :=
+    ⟨hs.1.1, fun _ => partsLeaf_fresh hf.1, hi, h0, he, heldValid_fresh hf.1,
+      kidsValid_of_leaf (partsLeaf_fresh hf.1), stkOK_of_noParts hf.1.1,
+      wr_fresh hf.2.1 (fun hr => (hf.2.2 hr).2.2.1), (fun _ hx => nomatch hx), wakeG_fresh hf.1⟩
+  have hgc : C03Z.GC w := by
+    rcases hs.2.2.2 with h1 | h1
+    · exact Or.inl h1
+    · exact C03Z.gc_fresh hs.1.2 h1 (held_nil_fresh hf.1)
+  have hIw : C02V.InvW w := (C02.consS_iff w).1 (C02.consS_fresh w hf.1)
+  have esw := (sw_simulateInit w).sw_eq
+  refine ⟨⟨hg.simulateInitG, fun hr => ?_, fun hn => ?_, Or.inl (hs.1.2.of_sw (sw_simulateInit w)),
+    C03Z.gc_simulateInit hgc (fun _ => hIw) esw⟩, hs.1.2.of_sw (sw_simulateInit w), fun h1 => ?_⟩
+  · rw [hasRes_of_ss (C02V.ss_simulateInit w)] at hr
+    exact C11W.inv_simulateInit w (hs.2.1 hr) (hf.2.2 hr)
+  · have hn0 : ¬ NoBatch w := fun hb => hn ((noBatch_of_sw (sw_simulateInit w).sw_eq).mpr hb)
+    exact C17W.ci_init w ⟨hf.1, static_of hs.1.1 hs.1.2 (hs.2.2.1 hn0).1 he, (hs.2.2.1 hn0).2⟩
+  · have hty : C03Z.Typed cl w := hs.2.2.2.resolve_left (fun ho => h1 (ho.of_sw esw))
+    exact ⟨hty.of_sw esw,
+      C03Z.tinv_simulateInit w hIw (C03Z.tinv_of_empty w (held_nil_fresh hf.1)) hty.tst.nb⟩
+
+/-- **D2. `wake5_step`**: every event preserves the invariant — including the typed-stacks
+invariant `C03Z.TInv cl`. -/
+theorem wake5_step {cl : List (List Nat)} {w w' : World} {e : Event} (h : GoodD cl w)
+    (hst : w.step = some (e, w')) : GoodD cl w' := by
+  have r := swrw_step w w' e h.b.g.sc.nc hst
+  have esw := (sw_step w w' e h.nr hst).sw_eq
+  refine ⟨h.b.step hst, h.nr.of_sw (sw_step w w' e h.nr hst), fun h1 => ?_⟩
+  have h0 : ¬ OneGrp w := fun ho => h1 (oneGrp_of_swr ho r.1)
+  obtain ⟨hty, hti⟩ := h.t h0
+  have hci := h.b.ci_of h0
+  exact ⟨hty.of_sw esw, (C03Z.tinv_step w w' e hci.inv hti hty.tst hci.stat hst).2.1⟩
+
+theorem wake5_runLoop {cl : List (List Nat)} (n : Nat) : ∀ {w : World}, GoodD cl w →
+    GoodD cl (runLoop n w) := by
+  induction n with
+  | zero =>
+    intro w h
+    have esw : sw (w.setErr "fuel") = sw w :=
+      C03Z.sw_of_swv (C02V.swv_setErr w _) (C02V.scr_setErr ..)
+    refine ⟨h.b.runLoop 0, C03Z.nr_of_sw h.nr esw, fun h1 => ?_⟩
+    have h0 : ¬ OneGrp w := fun ho => h1 (ho.of_sw esw)
+    obtain ⟨hty, hti⟩ := h.t h0
+    exact ⟨hty.of_sw esw, hti.of_frame_st (C02V.sv_setErr ..) (C02V.st_setErr ..) (setErr_parts ..)⟩
+  | succ n ih =>
+    intro w h
+    unfold World.runLoop
+    split
+    · split
+      · exact h
+      · next e w' hst => exact ih (wake5_step h hst)
+    · exact h
+
+theorem wake5_runBegin {cl : List (List Nat)} {w : World} (h : GoodD cl w) (d : Int) :
+    GoodD cl (w.runBegin d).1 := by
+  have esw := (sw_runBegin w d).sw_eq
+  refine ⟨h.b.runBegin d, h.nr.of_sw (sw_runBegin w d), fun h1 => ?_⟩
+  have h0 : ¬ OneGrp w := fun ho => h1 (ho.of_sw esw)
+  obtain ⟨hty, hti⟩ := h.t h0
+  exact ⟨hty.of_sw esw, C03Z.tinv_runBegin w d hti⟩
+
+/-- The scope `S5` is preserved by every step. -/
+theorem s5_step {cl : List (List Nat)} {w w' : World} {e : Event} (hs : S5 cl w) (h : GoodD cl w)
+    (hst : w.step = some (e, w')) : S5 cl w' :=
+  hs.of_sw (h.b.step hst).g.sc (sw_step w w' e hs.1.2 hst) (nr_step w w' e hs.1.2 hst)
+
+theorem s5_runLoop {cl : List (List Nat)} (n : Nat) {w : World} (hs : S5 cl w) (h : GoodD cl w) :
+    S5 cl (runLoop n w) :=
+  hs.of_sw (h.b.runLoop n).g.sc (sw_runLoop n w hs.1.2) (nr_runLoop n w hs.1.2)
+
+/-- **D3. `wake5_reachable`**: in every state reachable from an initialised fresh world of the
+scope `S5` the invariant holds. -/
+theorem wake5_reachable {cl : List (List Nat)} (n : Nat) {w : World} (hs : S5 cl w)
+    (hi : C01.Inv w.env) (h0 : 0 ≤ w.now) (he : EvOK w) (hf : FreshA w) :
+    GoodD cl (runLoop n w.simulateInit) :=
+  wake5_runLoop n (wake5_init hs hi h0 he hf)
+
+theorem wake5_simulate {cl : List (List Nat)} (n : Nat) (d : Int) {w : World} (hs : S5 cl w)
+    (hi : C01.Inv w.env) (h0 : 0 ≤ w.now) (he : EvOK w) (hf : FreshA w) :
+    GoodD cl (runLoop n (w.simulateInit.runBegin d).1) :=
+  wake5_runLoop n (wake5_runBegin (wake5_init hs hi h0 he hf) d)
+
+/-- **The typed-stacks invariant in words**: in a state of the invariant (several groups), the
+group-path stack of every part that a device `d` (not a sink) holds — in a slot, in its buffer, as
+its batch under construction — is typed for the context of `d`: reading the stack from the
+innermost entry, each entry is a group path of the group that is the last entry of the context at
+that level. -/
+theorem stacks_typed {cl : List (List Nat)} {w : World} (h : GoodD cl w) (h1 : ¬ OneGrp w)
+    {d p : Nat} (hd : d < w.devs.length) (hk : (w.dev d).kind ≠ .sink) (hp : p ∈ heldL (w.dev d)) :
+    C03Z.TS (C08W.topo w) (C03Z.cx cl) (C03Z.cx cl d) (w.part p).stack :=
+  (h.t h1).2.1 d (C02V.sdev (w.dev d)) p (C02V.sv_get w d hd) hk hp
+
+/-- Every group output that an offer of a held part can reach is the output of the group of the
+innermost group path on the stack of the part at that point (`consS`): "each entry of the stack
+belongs to the group the part will leave through". -/
+theorem exits_through_own_output {w : World} (h : GoodB w) {d p y : Nat}
+    (hd : holdsD (w.dev d) = some p) (hy : y ∈ (w.dev d).down) (f : Nat) :
+    consS f w y (w.part p).stack = true :=
+  h.k.cs h.g.stk (holdsD_lt hd) (holdsD_hl hd).2 (holdsD_mem_heldL hd) hy f
+
+/-- **D4. `blocked_genuinely5`**: when time is about to advance, every ready part — inside, between
+or in front of the groups — is flagged, and no downstream neighbour (group path, group input, group
+output of whichever group, …) would pass it on to anybody who accepts. -/
+theorem blocked_genuinely5 {cl : List (List Nat)} {w : World} (h : GoodD cl w)
+    (hc : ClockAdvances w) (d p : Nat) (hr : ready w d p) : BlockedW w d p :=
+  blocked_genuinelyB h.b hc d p hr
+
+theorem no_lost_wakeup5 {cl : List (List Nat)} {w : World} (h : GoodD cl w)
+    (hc : ClockAdvances w) : Quiescent w := no_lost_wakeupB h.b hc
+
+/-- **The closed-world statement for several groups** (stages D, E, F): in every state reachable by
+`runLoop` from an initialised fresh world of the scope `S5 cl` — any number of groups, used one
+after the other, in parallel, entered several times through different group paths, nested in each
+other (then: no batcher) — whenever the clock is about to advance no ready part could be handed
+over. -/
+theorem no_lost_wakeup5_reachable {cl : List (List Nat)} (n : Nat) {w : World} (hs : S5 cl w)
+    (hi : C01.Inv w.env) (h0 : 0 ≤ w.now) (he : EvOK w) (hf : FreshA w)
+    (hc : ClockAdvances (runLoop n w.simulateInit)) : Quiescent (runLoop n w.simulateInit) :=
+  no_lost_wakeup5 (wake5_reachable n hs hi h0 he hf) hc
+
+theorem no_lost_wakeup5_simulate {cl : List (List Nat)} (n : Nat) (d : Int) {w : World}
+    (hs : S5 cl w) (hi : C01.Inv w.env) (h0 : 0 ≤ w.now) (he : EvOK w) (hf : FreshA w)
+    (hc : ClockAdvances (runLoop n (w.simulateInit.runBegin d).1)) :
+    Quiescent (runLoop n (w.simulateInit.runBegin d).1) :=
+  no_lost_wakeup5 (wake5_simulate n d hs hi h0 he hf) hc
+
+/-- The same with the computed certificate: the scope `S5 (C03Z.ctxInfer w) w` is a decidable
+predicate of the world alone. -/
+theorem no_lost_wakeup5_infer (n : Nat) {w : World} (hs : S5 (C03Z.ctxInfer w) w)
+    (hi : C01.Inv w.env) (h0 : 0 ≤ w.now) (he : EvOK w) (hf : FreshA w)
+    (hc : ClockAdvances (runLoop n w.simulateInit)) : Quiescent (runLoop n w.simulateInit) :=
+  no_lost_wakeup5_reachable n hs hi h0 he hf hc
+
+/-! ### several groups and re-wiring from outside -/
+
+/-- the scope `S5` survives an admissible re-wiring after which the world is in `SC` and typed
+again -/
+theorem S5.rewire {cl : List (List Nat)} {w : World} (h : S5 cl w) (x : Nat) (ups : List Nat)
+    (hfin : SC (w.rewire x ups)) (hty : ¬ OneGrp w → C03Z.Typed cl (w.rewire x ups)) :
+    S5 cl (w.rewire x ups) := by
+  have r : C02V.swr (w.rewire x ups) = C02V.swr w := C02V.swr_rewire w x ups
+  have hscr : (w.rewire x ups).scripts = w.scripts := C02V.scr_rewire w x ups
+  refine ⟨⟨hfin, h.1.2.of_scripts hscr⟩, fun hr => ?_, fun hn => ?_, ?_⟩
+  · exact (h.2.1 (by rw [← hasRes_of_swr r]; exact hr)).of_ss ⟨sd_of_swr r, hscr⟩
+  · have := h.2.2.1 (fun hb => hn ((noBatch_of_swr r).mpr hb))
+    exact ⟨scrB_of_kind hscr (kind_rewire w x ups) this.1, sizesPos_of_swr r this.2⟩
+  · by_cases h1 : OneGrp w
+    · exact Or.inl (oneGrp_of_swr h1 r)
+    · exact Or.inr (hty h1)
+
+/-- **Reachable states** (several groups, re-wiring issued from outside): initialisation, events,
+runs, beginnings of runs, and re-wirings that are admissible (`RewOK`) and leave the world in the
+scope `SC` and — unless there is one group only — typed by the certificate of the scope (all
+decidable on the current world). -/
+inductive ReachD (cl : List (List Nat)) (w0 : World) : World → Prop
+  | init : ReachD cl w0 w0.simulateInit
+  | step {w w' : World} {e : Event} : ReachD cl w0 w → w.step = some (e, w') → ReachD cl w0 w'
+  | loop {w : World} (n : Nat) : ReachD cl w0 w → ReachD cl w0 (runLoop n w)
+  | run {w : World} (d : Int) : ReachD cl w0 w → ReachD cl w0 (w.runBegin d).1
+  | rew {w : World} (x : Nat) (ups : List Nat) : ReachD cl w0 w → RewOK w x ups →
+      SC (w.rewire x ups) → (¬ OneGrp w → C03Z.Typed cl (w.rewire x ups)) →
+      ReachD cl w0 (w.applyOp (.rewire x ups)).1
+
+/-- a re-wiring issued from outside preserves invariant and scope (the typed-stacks invariant does
+not read the wiring) -/
+theorem wake5_rewire {cl : List (List Nat)} {w : World} (hs : S5 cl w) (h : GoodD cl w) (hi : Ini w)
+    (x : Nat) (ups : List Nat) (hok : RewOK w x ups) (hfin : SC (w.rewire x ups))
+    (hty : ¬ OneGrp w → C03Z.Typed cl (w.rewire x ups)) :
+    GoodD cl (w.rewire x ups) ∧ S5 cl (w.rewire x ups) ∧ Ini (w.rewire x ups) := by
+  have r : C02V.swr (w.rewire x ups) = C02V.swr w := C02V.swr_rewire w x ups
+  have hscr : (w.rewire x ups).scripts = w.scripts := C02V.scr_rewire w x ups
+  have hl : (w.rewire x ups).devs.length = w.devs.length := by
+    have := congrArg (fun t => t.1.length) r
+    simpa [C02V.swr] using this
+  have hkind := kind_rewire w x ups
+  have hgroup : ∀ y, ((w.rewire x ups).dev y).group = (w.dev y).group :=
+    fun y => stat0_group (stat0_of_swr r y)
+  have hgr : (w.rewire x ups).groups = w.groups := congrArg (fun t => t.2.2) r
+  have hk : C03Z.GC (w.rewire x ups) := by
+    by_cases h1 : OneGrp w
+    · exact Or.inl (oneGrp_of_swr h1 r)
+    · obtain ⟨_, hti⟩ := h.t h1
+      exact Or.inr ⟨cl, h.nr.of_scripts hscr, hty h1,
+        hti.of_kinds (C02V.sv_rewire w x ups) hkind hgroup (parts_rewire w x ups)⟩
+  -- the part of the invariant shared with stages A, B, C
+  have hg := h.b.g.rewireD x ups hok hfin (fun z hz => hi.inited hz)
+  have hi' : Ini (w.rewire x ups) := by
+    obtain ⟨h1, h2, _⟩ := C20W.Pv_applyOp w (.rewire x ups) rfl hi.1
+    exact ⟨h1, h2.trans hi.2⟩
+  have hb : GoodB (w.rewire x ups) := by
+    refine ⟨hg, fun hr => inv11_rewire (h.b.r (by rw [← hasRes_of_swr r]; exact hr)) x ups,
+      fun hn => ?_, Or.inr hi', hk⟩
+    have hn0 : ¬ NoBatch w := fun hb0 => hn ((noBatch_of_swr r).mpr hb0)
+    exact ci_rewire (h.b.c hn0) x ups hfin h.nr (hs.2.2.1 hn0).1 hg.ev
+  refine ⟨⟨hb, h.nr.of_scripts hscr, fun h1 => ?_⟩, hs.rewire x ups hfin hty, hi'⟩
+  have h0 : ¬ OneGrp w := fun ho => h1 (oneGrp_of_swr ho r)
+  exact ⟨hty h0, (h.t h0).2.of_kinds (C02V.sv_rewire w x ups) hkind hgroup (parts_rewire w x ups)⟩
+
+/-- **In every reachable state** (events, runs, outside re-wirings): invariant, scope, every device
+initialised. -/
+theorem wake5_rewire_reachable {cl : List (List Nat)} {w0 w : World} (hs : S5 cl w0)
+    (hi : C01.Inv w0.env) (h0 : 0 ≤ w0.now) (he : EvOK w0) (hf : FreshA w0) (hreg : C20W.Reg w0)
+    (hr : ReachD cl w0 w) : GoodD cl w ∧ S5 cl w ∧ Ini w := by
+  induction hr with
+  | init =>
+    have hg := wake5_init hs hi h0 he hf
+    exact ⟨hg, hs.of_sw hg.b.g.sc (sw_simulateInit w0) (C02V.ss_simulateInit w0), ini_simulateInit hreg⟩
+  | step _ hst ih => exact ⟨wake5_step ih.1 hst, s5_step ih.2.1 ih.1 hst, ih.2.2.step (istep_step hst)⟩
+  | loop n _ ih =>
+    exact ⟨wake5_runLoop n ih.1, s5_runLoop n ih.2.1 ih.1, ih.2.2.step (istep_runLoop n _)⟩
+  | run d _ ih =>
+    exact ⟨wake5_runBegin ih.1 d,
+      ih.2.1.of_sw (ih.1.b.runBegin d).g.sc (sw_runBegin _ d) (ss_runBegin _ d),
+      ih.2.2.step (istep_runBegin _ d)⟩
+  | rew x ups _ hok hfin hty ih => exact wake5_rewire ih.2.1 ih.1 ih.2.2 x ups hok hfin hty
+
+/-- **The closed-world statement for several groups with re-wiring issued from outside.** -/
+theorem no_lost_wakeup5_rewire_reachable {cl : List (List Nat)} {w0 w : World} (hs : S5 cl w0)
+    (hi : C01.Inv w0.env) (h0 : 0 ≤ w0.now) (he : EvOK w0) (hf : FreshA w0) (hreg : C20W.Reg w0)
+    (hr : ReachD cl w0 w) (hc : ClockAdvances w) : Quiescent w :=
+  no_lost_wakeup5 (wake5_rewire_reachable hs hi h0 he hf hreg hr).1 hc
+
+/-- What remains PARTIAL with respect to "several groups": (1) a batcher at nesting depth ≥ 2 is
+outside the scope (`Typed`: `BatShallow`) — for a batcher INSIDE AN INNER group that unpacks batches
+formed in an OUTER group the property is FALSE (`nested_batcher_false`, finding F14);
+(2) all paths of a group must stand in the SAME context (a group shared between two different
+nesting levels is not typed); (3) re-wiring IN SCRIPTS together with several groups (`S5` requires
+`NR`; re-wiring from outside is covered: `no_lost_wakeup5_rewire_reachable`). -/
+theorem no_lost_wakeup5_partial {cl : List (List Nat)} (n : Nat) {w : World} (hs : S5 cl w)
+    (hi : C01.Inv w.env) (h0 : 0 ≤ w.now) (he : EvOK w) (hf : FreshA w)
+    (hc : ClockAdvances (runLoop n w.simulateInit)) : Quiescent (runLoop n w.simulateInit) :=
+  no_lost_wakeup5_reachable n hs hi h0 he hf hc
+
+/-! ### non-vacuity, several groups -/
+
+/-- STAGE D — two groups used one after the other: source 0 → group path 1 (group 0: input 2 →
+machine 3 → output 4) → group path 5 (group 1: input 6 → machine 7 → output 8) → slow sink 9 -/
+def exChain : World :=
+  { devs := [{ kind := .source, aid := 1, down := [1], cycle := 1, maxParts := some 4 },
+             { kind := .gpath, aid := 2, group := 0, up := [0], down := [5] },
+             { kind := .ginput, aid := 3, group := 0, down := [3] },
+             { kind := .handler, aid := 4, up := [2], down := [4], cycle := 1 },
+             { kind := .goutput, aid := 5, group := 0, up := [3] },
+             { kind := .gpath, aid := 6, group := 1, up := [1], down := [9] },
+             { kind := .ginput, aid := 7, group := 1, down := [7] },
+             { kind := .handler, aid := 8, up := [6], down := [8], cycle := 1 },
+             { kind := .goutput, aid := 9, group := 1, up := [7] },
+             { kind := .sink, aid := 10, up := [5], cycle := 5 }],
+    groups := [{ paths := [1], input := 2, output := 4 }, { paths := [5], input := 6, output := 8 }],
+    assets := [.dev 0, .dev 1, .dev 2, .dev 3, .dev 4, .dev 5, .dev 6, .dev 7, .dev 8, .dev 9] }
+
+/-- its contexts: the machines, inputs and outputs are inside their groups, everything else outside -/
+def clChain : List (List Nat) := [[], [], [0], [0], [0], [], [1], [1], [1], []]
+
+/-- in the scope `S5` (typed, flat), not in the scope of stage C (two groups); the computed
+certificate is the one above -/
+theorem s5_exChain : S5 clChain exChain ∧ ¬ S4 exChain ∧ ¬ OneGrp exChain ∧ C03Z.Flat clChain := by
+  decide
+
+set_option maxRecDepth 4000 in
+theorem ctxInfer_exChain : C03Z.ctxInfer exChain = clChain := by decide
+
+/-- … so the world is in the certificate-free scope -/
+theorem s5i_exChain : S5 (C03Z.ctxInfer exChain) exChain := ctxInfer_exChain ▸ s5_exChain.1
+
+theorem freshA_exChain : FreshA exChain :=
+  ⟨⟨rfl, rfl, rfl, rfl, by decide⟩, by decide, fun h => by cases h⟩
+
+theorem evOK_exChain : EvOK exChain := fun n hn => by simp [C02V.acts, exChain] at hn
+
+/-- the hypotheses of the closed-world theorems for several groups are satisfiable -/
+theorem goodD_exChain (n : Nat) : GoodD clChain (runLoop n (exChain.simulateInit.runBegin 100).1) :=
+  wake5_simulate n 100 s5_exChain.1 C01.inv_init (by decide) evOK_exChain freshA_exChain
+
+/-- t = 4: the sink is busy until 8; the machine 7 of the SECOND group holds part 1 (stack [5]), the
+machine 3 of the FIRST group holds part 2 (stack [1]: it would leave through the output of group 0
+to group path 5 of group 1, whose machine is occupied), the source holds part 3; all three are
+flagged; the clock is about to advance; everything is genuinely blocked -/
+def exChainBlocked : World := runLoop 21 (exChain.simulateInit.runBegin 100).1
+
+example : exChainBlocked.now = 4 ∧ ClockAdvances exChainBlocked ∧
+    (exChainBlocked.part 1).stack = [5] ∧ (exChainBlocked.part 2).stack = [1] ∧
+    ready exChainBlocked 7 1 ∧ ready exChainBlocked 3 2 ∧ ready exChainBlocked 0 3 ∧
+    BlockedW exChainBlocked 7 1 ∧ BlockedW exChainBlocked 3 2 ∧ BlockedW exChainBlocked 0 3 ∧
+    WakeA exChainBlocked ∧ Quiescent exChainBlocked := by decide
+
+example : Quiescent exChainBlocked := no_lost_wakeup5 (goodD_exChain 21) (by decide)
+
+/-- the stacks are typed for the contexts of the holders (the invariant, computed): part 1 inside
+group 1 entered through path 5, part 2 inside group 0 entered through path 1 -/
+example : C03Z.TS (C08W.topo exChainBlocked) (C03Z.cx clChain) (C03Z.cx clChain 7)
+      (exChainBlocked.part 1).stack ∧
+    C03Z.TS (C08W.topo exChainBlocked) (C03Z.cx clChain) (C03Z.cx clChain 3)
+      (exChainBlocked.part 2).stack ∧
+    ¬ C03Z.TS (C08W.topo exChainBlocked) (C03Z.cx clChain) (C03Z.cx clChain 7)
+      (exChainBlocked.part 2).stack := by decide
+
+/-- … as the theorem says -/
+example : C03Z.TS (C08W.topo exChainBlocked) (C03Z.cx clChain) (C03Z.cx clChain 7)
+    (exChainBlocked.part 1).stack :=
+  stacks_typed (goodD_exChain 21) (by decide) (by decide) (by decide) (by decide)
+
+/-- `give` answers `wouldAccept` through BOTH groups: the offer of part 2 to the output 4 of group 0
+(pop path 1, on to path 5, push, input 6, machine 7: occupied) is refused -/
+example : (exChainBlocked.givePart 4 2).2 = false ∧
+    wouldAccept exChainBlocked.fuel exChainBlocked 4 2 = false := by decide
+
+/-- t = 8: the sink has notified group path 5; through the output 8 of group 1 the machine 7 has
+been woken (W1); one event later it has handed part 1 over and its notification has gone — group
+input 6, group path 5, group path 1, OUTPUT 4 OF GROUP 0 — to the machine 3, whose attempt is queued;
+another event later part 2 has moved from group 0 into group 1 (stack [5]) and the source is woken -/
+example : (runLoop 22 (exChain.simulateInit.runBegin 100).1).now = 8 ∧
+    Att (runLoop 22 (exChain.simulateInit.runBegin 100).1) 7 ∧
+    ((runLoop 23 (exChain.simulateInit.runBegin 100).1).dev 9).part = some 1 ∧
+    Att (runLoop 23 (exChain.simulateInit.runBegin 100).1) 3 ∧
+    ((runLoop 24 (exChain.simulateInit.runBegin 100).1).dev 7).part = some 2 ∧
+    ((runLoop 24 (exChain.simulateInit.runBegin 100).1).part 2).stack = [5] ∧
+    Att (runLoop 24 (exChain.simulateInit.runBegin 100).1) 0 := by decide
+
+/-- STAGE E — a group shared by two lines, with a second group behind one of them: source 0 → path 2
+→ path 7 (group 1: input 8 → machine 9 → output 10) → sink 11, and source 1 → path 3 → sink 12; the
+paths 2 and 3 share group 0 (input 4 → machine 5 → output 6) -/
+def exShared : World :=
+  { devs := [{ kind := .source, aid := 1, down := [2], cycle := 1, maxParts := some 3 },
+             { kind := .source, aid := 2, down := [3], cycle := 1, maxParts := some 3 },
+             { kind := .gpath, aid := 3, group := 0, up := [0], down := [7] },
+             { kind := .gpath, aid := 4, group := 0, up := [1], down := [12] },
+             { kind := .ginput, aid := 5, group := 0, down := [5] },
+             { kind := .handler, aid := 6, up := [4], down := [6], cycle := 2 },
+             { kind := .goutput, aid := 7, group := 0, up := [5] },
+             { kind := .gpath, aid := 8, group := 1, up := [2], down := [11] },
+             { kind := .ginput, aid := 9, group := 1, down := [9] },
+             { kind := .handler, aid := 10, up := [8], down := [10], cycle := 1 },
+             { kind := .goutput, aid := 11, group := 1, up := [9] },
+             { kind := .sink, aid := 12, up := [7], cycle := 5 },
+             { kind := .sink, aid := 13, up := [3], cycle := 5 }],
+    groups := [{ paths := [2, 3], input := 4, output := 6 }, { paths := [7], input := 8, output := 10 }],
+    assets := [.dev 0, .dev 1, .dev 2, .dev 3, .dev 4, .dev 5, .dev 6, .dev 7, .dev 8, .dev 9, .dev 10,
+      .dev 11, .dev 12] }
+
+def clShared : List (List Nat) := [[], [], [], [], [0], [0], [0], [], [1], [1], [1], [], []]
+
+/-- in the scope `S5`; the certificate is the computed one -/
+theorem s5_exShared : S5 clShared exShared ∧ ¬ S4 exShared := by decide
+
+set_option maxRecDepth 4000 in
+theorem ctxInfer_exShared : C03Z.ctxInfer exShared = clShared := by decide
+
+theorem goodD_exShared (n : Nat) :
+    GoodD clShared (runLoop n (exShared.simulateInit.runBegin 100).1) :=
+  wake5_simulate n 100 s5_exShared.1 C01.inv_init (by decide)
+    (fun n hn => by simp [C02V.acts, exShared] at hn)
+    ⟨⟨rfl, rfl, rfl, rfl, by decide⟩, by decide, fun h => by cases h⟩
+
+/-- t = 7: the shared machine 5 holds part 3 of the FIRST line (stack [2]): it would leave through
+path 2 into the second group, whose machine 9 holds part 2 (stack [7]) in front of the busy sink 11;
+the source of the second line is blocked in front of the shared machine although ITS sink 12 is idle;
+the clock is about to advance; everything is genuinely blocked -/
+example : (runLoop 24 (exShared.simulateInit.runBegin 100).1).now = 7 ∧
+    ClockAdvances (runLoop 24 (exShared.simulateInit.runBegin 100).1) ∧
+    ((runLoop 24 (exShared.simulateInit.runBegin 100).1).part 3).stack = [2] ∧
+    ((runLoop 24 (exShared.simulateInit.runBegin 100).1).part 2).stack = [7] ∧
+    ((runLoop 24 (exShared.simulateInit.runBegin 100).1).dev 12).part = none ∧
+    BlockedW (runLoop 24 (exShared.simulateInit.runBegin 100).1) 5 3 ∧
+    BlockedW (runLoop 24 (exShared.simulateInit.runBegin 100).1) 9 2 ∧
+    BlockedW (runLoop 24 (exShared.simulateInit.runBegin 100).1) 1 1 ∧
+    Quiescent (runLoop 24 (exShared.simulateInit.runBegin 100).1) := by decide
+
+example : Quiescent (runLoop 24 (exShared.simulateInit.runBegin 100).1) :=
+  no_lost_wakeup5 (goodD_exShared 24) (by decide)
+
+/-- t = 9: sink 11 has notified; machine 9 is woken through the output of group 1, hands part 2 over,
+and the shared machine 5 is woken through the output of group 0 -/
+example : (runLoop 25 (exShared.simulateInit.runBegin 100).1).now = 9 ∧
+    Att (runLoop 25 (exShared.simulateInit.runBegin 100).1) 9 ∧
+    ((runLoop 26 (exShared.simulateInit.runBegin 100).1).dev 11).part = some 2 ∧
+    Att (runLoop 26 (exShared.simulateInit.runBegin 100).1) 5 := by decide
+
+/-- STAGE E — re-entrant use with another group in between: source 0 → path 1 (group 0: input 2 →
+machine 3 → output 4) → path 5 (group 1: input 6 → machine 7 → output 8) → path 9 (GROUP 0 AGAIN) →
+sink 10; every part passes the machine 3 twice -/
+def exReent : World :=
+  { devs := [{ kind := .source, aid := 1, down := [1], cycle := 4, maxParts := some 3 },
+             { kind := .gpath, aid := 2, group := 0, up := [0], down := [5] },
+             { kind := .ginput, aid := 3, group := 0, down := [3] },
+             { kind := .handler, aid := 4, up := [2], down := [4], cycle := 1 },
+             { kind := .goutput, aid := 5, group := 0, up := [3] },
+             { kind := .gpath, aid := 6, group := 1, up := [1], down := [9] },
+             { kind := .ginput, aid := 7, group := 1, down := [7] },
+             { kind := .handler, aid := 8, up := [6], down := [8], cycle := 1 },
+             { kind := .goutput, aid := 9, group := 1, up := [7] },
+             { kind := .gpath, aid := 10, group := 0, up := [5], down := [10] },
+             { kind := .sink, aid := 11, up := [9], cycle := 5 }],
+    groups := [{ paths := [1, 9], input := 2, output := 4 }, { paths := [5], input := 6, output := 8 }],
+    assets := [.dev 0, .dev 1, .dev 2, .dev 3, .dev 4, .dev 5, .dev 6, .dev 7, .dev 8, .dev 9, .dev 10] }
+
+def clReent : List (List Nat) := [[], [], [0], [0], [0], [], [1], [1], [1], [], []]
+
+theorem s5_exReent : S5 clReent exReent ∧ ¬ S4 exReent := by decide
+
+theorem goodD_exReent (n : Nat) :
+    GoodD clReent (runLoop n (exReent.simulateInit.runBegin 100).1) :=
+  wake5_simulate n 100 s5_exReent.1 C01.inv_init (by decide)
+    (fun n hn => by simp [C02V.acts, exReent] at hn)
+    ⟨⟨rfl, rfl, rfl, rfl, by decide⟩, by decide, fun h => by cases h⟩
+
+/-- t = 11: part 1 is in the machine 3 for the SECOND time (history 0, 1, 3, 5, 7, 9, 3), now with
+the stack [9]: it will leave group 0 through path 9 to the sink, which is busy until 12; the
+machine is flagged, the clock is about to advance, the part is genuinely blocked; at t = 12 the sink
+notifies path 9, the machine is woken through the output of group 0 and hands the part over -/
+example : (runLoop 16 (exReent.simulateInit.runBegin 100).1).now = 11 ∧
+    ClockAdvances (runLoop 16 (exReent.simulateInit.runBegin 100).1) ∧
+    ((runLoop 16 (exReent.simulateInit.runBegin 100).1).part 1).stack = [9] ∧
+    ((runLoop 16 (exReent.simulateInit.runBegin 100).1).part 1).hist = [0, 1, 3, 5, 7, 9, 3] ∧
+    BlockedW (runLoop 16 (exReent.simulateInit.runBegin 100).1) 3 1 ∧
+    Quiescent (runLoop 16 (exReent.simulateInit.runBegin 100).1) ∧
+    Att (runLoop 18 (exReent.simulateInit.runBegin 100).1) 3 ∧
+    ((runLoop 20 (exReent.simulateInit.runBegin 100).1).dev 10).part = some 1 := by decide
+
+example : Quiescent (runLoop 16 (exReent.simulateInit.runBegin 100).1) :=
+  no_lost_wakeup5 (goodD_exReent 16) (by decide)
+
+/-- STAGE F — a group nested in a group: source 0 → group path 1 of the OUTER group 0 (input 2 →
+machine 3 → group path 4 of the INNER group 1 (input 5 → machine 6 → output 7) → output 8) → slow
+sink 9; the path of the inner group is a member of the outer group (its last one) -/
+def exNested : World :=
+  { devs := [{ kind := .source, aid := 1, down := [1], cycle := 1, maxParts := some 4 },
+             { kind := .gpath, aid := 2, group := 0, up := [0], down := [9] },
+             { kind := .ginput, aid := 3, group := 0, down := [3] },
+             { kind := .handler, aid := 4, up := [2], down := [4], cycle := 1 },
+             { kind := .gpath, aid := 5, group := 1, up := [3], down := [8] },
+             { kind := .ginput, aid := 6, group := 1, down := [6] },
+             { kind := .handler, aid := 7, up := [5], down := [7], cycle := 1 },
+             { kind := .goutput, aid := 8, group := 1, up := [6] },
+             { kind := .goutput, aid := 9, group := 0, up := [4] },
+             { kind := .sink, aid := 10, up := [1], cycle := 5 }],
+    groups := [{ paths := [1], input := 2, output := 8 }, { paths := [4], input := 5, output := 7 }],
+    assets := [.dev 0, .dev 1, .dev 2, .dev 3, .dev 4, .dev 5, .dev 6, .dev 7, .dev 8, .dev 9] }
+
+def clNested : List (List Nat) := [[], [], [0], [0], [0], [0, 1], [0, 1], [0, 1], [0], []]
+
+/-- in the scope `S5` (typed, NOT flat, no batcher); the inner machine stands in the context [0, 1] -/
+theorem s5_exNested : S5 clNested exNested ∧ ¬ S4 exNested ∧ ¬ C03Z.Flat clNested ∧
+    C03Z.NoBat exNested := by decide
+
+set_option maxRecDepth 4000 in
+theorem ctxInfer_exNested : C03Z.ctxInfer exNested = clNested := by decide
+
+theorem goodD_exNested (n : Nat) :
+    GoodD clNested (runLoop n (exNested.simulateInit.runBegin 100).1) :=
+  wake5_simulate n 100 s5_exNested.1 C01.inv_init (by decide)
+    (fun n hn => by simp [C02V.acts, exNested] at hn)
+    ⟨⟨rfl, rfl, rfl, rfl, by decide⟩, by decide, fun h => by cases h⟩
+
+/-- t = 4: the INNER machine 6 holds part 1 with the stack [1, 4] (outer path, inner path), the outer
+machine 3 holds part 2 (stack [1]), the source part 3; the sink is busy until 8; all are flagged, the
+clock is about to advance, everything is genuinely blocked: the offer of part 1 goes through the
+inner output 7 (pop 4), the outer output 8 (pop 1) to the sink -/
+def exNestedBlocked : World := runLoop 21 (exNested.simulateInit.runBegin 100).1
+
+example : exNestedBlocked.now = 4 ∧ ClockAdvances exNestedBlocked ∧
+    (exNestedBlocked.part 1).stack = [1, 4] ∧ (exNestedBlocked.part 2).stack = [1] ∧
+    ready exNestedBlocked 6 1 ∧ ready exNestedBlocked 3 2 ∧ ready exNestedBlocked 0 3 ∧
+    BlockedW exNestedBlocked 6 1 ∧ BlockedW exNestedBlocked 3 2 ∧ BlockedW exNestedBlocked 0 3 ∧
+    (exNestedBlocked.givePart 7 1).2 = false ∧ Quiescent exNestedBlocked := by decide
+
+example : Quiescent exNestedBlocked := no_lost_wakeup5 (goodD_exNested 21) (by decide)
+
+/-- the stack [1, 4] is typed for the context [0, 1] of the inner machine -/
+example : C03Z.TS (C08W.topo exNestedBlocked) (C03Z.cx clNested)
+    (C03Z.cx clNested 6) (exNestedBlocked.part 1).stack :=
+  stacks_typed (goodD_exNested 21) (by decide) (by decide) (by decide) (by decide)
+
+/-- t = 8: the sink has notified the OUTER group path 1; the notification has gone through the outer
+output 8 to the inner group path 4 and through the INNER output 7 to the machine 6 (W1); one event
+later part 1 is in the sink with the empty stack and the outer machine 3 is woken -/
+example : (runLoop 22 (exNested.simulateInit.runBegin 100).1).now = 8 ∧
+    Att (runLoop 22 (exNested.simulateInit.runBegin 100).1) 6 ∧
+    ((runLoop 23 (exNested.simulateInit.runBegin 100).1).dev 9).part = some 1 ∧
+    ((runLoop 23 (exNested.simulateInit.runBegin 100).1).part 1).stack = [] ∧
+    Att (runLoop 23 (exNested.simulateInit.runBegin 100).1) 3 := by decide
+
+/-! #### several groups and a re-wiring from outside -/
+
+/-- `exChain` with a free sink 10 that is not connected -/
+def exChainR : World :=
+  { exChain with devs := exChain.devs ++ [{ kind := .sink, aid := 11 }],
+                 assets := exChain.assets ++ [.dev 10] }
+
+theorem s5_exChainR : S5 (clChain ++ [[]]) exChainR ∧ C20W.Reg exChainR := by decide
+
+/-- the blocked state at t = 4 (as `exChainBlocked`) is reachable; connecting the free sink behind
+group path 5 (`rewire 10 [5]`) is admissible there and leaves the world in the scope and typed -/
+theorem reachD_exChainR :
+    ReachD (clChain ++ [[]]) exChainR (runLoop 21 (exChainR.simulateInit.runBegin 100).1) ∧
+    RewOK (runLoop 21 (exChainR.simulateInit.runBegin 100).1) 10 [5] ∧
+    SC ((runLoop 21 (exChainR.simulateInit.runBegin 100).1).rewire 10 [5]) ∧
+    C03Z.Typed (clChain ++ [[]]) ((runLoop 21 (exChainR.simulateInit.runBegin 100).1).rewire 10 [5]) :=
+  ⟨.loop 21 (.run 100 .init), by decide, by decide, by decide⟩
+
+/-- the state after the outside re-wiring is covered by the theorem … -/
+example : GoodD (clChain ++ [[]]) ((runLoop 21 (exChainR.simulateInit.runBegin 100).1).rewire 10 [5]) :=
+  (wake5_rewire_reachable s5_exChainR.1 C01.inv_init (by decide)
+    (fun n hn => by simp [C02V.acts, exChainR, exChain] at hn)
+    ⟨⟨rfl, rfl, rfl, rfl, by decide⟩, by decide, fun h => by cases h⟩ s5_exChainR.2
+    (.rew 10 [5] reachD_exChainR.1 reachD_exChainR.2.1 reachD_exChainR.2.2.1
+      (fun _ => reachD_exChainR.2.2.2))).1
+
+/-- … the notification has gone from group path 5 through the output of group 1 to the machine 7,
+whose attempt is queued for the present instant; one event later part 1 has been delivered to the new
+sink -/
+example : Quiescent (runLoop 21 (exChainR.simulateInit.runBegin 100).1) ∧
+    (((runLoop 21 (exChainR.simulateInit.runBegin 100).1).rewire 10 [5]).dev 5).down = [9, 10] ∧
+    Att ((runLoop 21 (exChainR.simulateInit.runBegin 100).1).rewire 10 [5]) 7 ∧
+    (runLoop 1 ((runLoop 21 (exChainR.simulateInit.runBegin 100).1).rewire 10 [5])).delivered = [0, 1] :=
+  by decide
+
+/-! ### FALSE for a batcher inside an inner group (finding F14)
+
+`group.py` keeps the group-path stack on the object that is handed over; the parts INSIDE a batch
+keep the stacks they had when they were batched.  A batch formed inside an outer group (its parts
+carry the outer path) that enters an inner group and is unpacked THERE yields parts whose innermost
+stack entry is the OUTER path: the inner group output sends them out through the outer path —
+by-passing the rest of the outer group — and the wake-up that later comes back along the outer path
+reaches the output of the OUTER group only: the unbatcher inside the inner group is never woken. -/
+
+/-- source 0 → OUTER group 0 (path 1, input 2, output 9): batcher 3 (batches of 2) → INNER group 1
+(path 4, input 5, output 7): unbatcher 6 → machine 8 → outer output 9; slow sink 10 behind path 1 -/
+def cexNestBat : World :=
+  { devs := [{ kind := .source, aid := 1, down := [1], cycle := 1, maxParts := some 4 },
+             { kind := .gpath, aid := 2, group := 0, up := [0], down := [10] },
+             { kind := .ginput, aid := 3, group := 0, down := [3] },
+             { kind := .batcher, aid := 4, up := [2], down := [4], bsize := some 2 },
+             { kind := .gpath, aid := 5, group := 1, up := [3], down := [8] },
+             { kind := .ginput, aid := 6, group := 1, down := [6] },
+             { kind := .batcher, aid := 7, up := [5], down := [7] },
+             { kind := .goutput, aid := 8, group := 1, up := [6] },
+             { kind := .handler, aid := 9, up := [4], down := [9] },
+             { kind := .goutput, aid := 10, group := 0, up := [8] },
+             { kind := .sink, aid := 11, up := [1], cycle := 10 }],
+    groups := [{ paths := [1], input := 2, output := 9 }, { paths := [4], input := 5, output := 7 }],
+    assets := [.dev 0, .dev 1, .dev 2, .dev 3, .dev 4, .dev 5, .dev 6, .dev 7, .dev 8, .dev 9, .dev 10] }
+
+def clNestBat : List (List Nat) := [[], [], [0], [0], [0], [0, 1], [0, 1], [0, 1], [0], [0], []]
+
+/-- **Nested groups with a batcher in the inner group lose a wake-up.**  The world satisfies every
+condition of the scope `S5` — the wiring is typed by `clNestBat` — except "every batcher stands at
+nesting depth ≤ 1" (`BatShallow`: the unbatcher 6 stands in the context [0, 1]); it is fresh.  At the end of the run (t = 100, nothing queued any more) the unbatcher 6 inside the INNER
+group still holds part 2, whose stack is [1] (the OUTER path), flagged, while the sink — reached
+through the inner output 7 and the downstream list of path 1 — is idle and would accept it. -/
+theorem nested_batcher_false :
+    (SC cexNestBat ∧ NR cexNestBat) ∧ (∀ x ∈ List.range cexNestBat.devs.length,
+      C03Z.TypedAt clNestBat cexNestBat x) ∧ ¬ C03Z.BatShallow clNestBat cexNestBat ∧
+    C03Z.cx clNestBat 6 = [0, 1] ∧
+    ¬ S5 clNestBat cexNestBat ∧ FreshA cexNestBat ∧
+    ClockAdvances (runLoop 20 (cexNestBat.simulateInit.runBegin 100).1) ∧
+    ((runLoop 20 (cexNestBat.simulateInit.runBegin 100).1).part 2).stack = [1] ∧
+    ready (runLoop 20 (cexNestBat.simulateInit.runBegin 100).1) 6 2 ∧
+    ((runLoop 20 (cexNestBat.simulateInit.runBegin 100).1).dev 6).waitingDS = true ∧
+    wouldAccept (runLoop 20 (cexNestBat.simulateInit.runBegin 100).1).fuel
+      (runLoop 20 (cexNestBat.simulateInit.runBegin 100).1) 7 2 = true ∧
+    (runLoop 20 (cexNestBat.simulateInit.runBegin 100).1).error = none ∧
+    ¬ Quiescent (runLoop 20 (cexNestBat.simulateInit.runBegin 100).1) := by
+  refine ⟨by decide, by decide, by decide, by decide, by decide,
+    ⟨⟨rfl, rfl, rfl, rfl, by decide⟩, by decide, fun h => by cases h⟩,
+    by decide, by decide, by decide, by decide, by decide, by decide, by decide⟩
+
+/-- **Nested groups WITH batchers, all at nesting depth ≤ 1**: as `cexNestBat`, but the unbatcher
+stands BEHIND the inner group (device 8, context [0]) and the inner group contains a plain machine
+(device 6): the batches formed in the outer group pass the inner group as batches and are unpacked
+in the outer group again -/
+def exNestBat : World :=
+  { devs := [{ kind := .source, aid := 1, down := [1], cycle := 1, maxParts := some 6 },
+             { kind := .gpath, aid := 2, group := 0, up := [0], down := [10] },
+             { kind := .ginput, aid := 3, group := 0, down := [3] },
+             { kind := .batcher, aid := 4, up := [2], down := [4], bsize := some 2 },
+             { kind := .gpath, aid := 5, group := 1, up := [3], down := [8] },
+             { kind := .ginput, aid := 6, group := 1, down := [6] },
+             { kind := .handler, aid := 7, up := [5], down := [7], cycle := 1 },
+             { kind := .goutput, aid := 8, group := 1, up := [6] },
+             { kind := .batcher, aid := 9, up := [4], down := [9] },
+             { kind := .goutput, aid := 10, group := 0, up := [8] },
+             { kind := .sink, aid := 11, up := [1], cycle := 4 }],
+    groups := [{ paths := [1], input := 2, output := 9 }, { paths := [4], input := 5, output := 7 }],
+    assets := [.dev 0, .dev 1, .dev 2, .dev 3, .dev 4, .dev 5, .dev 6, .dev 7, .dev 8, .dev 9, .dev 10] }
+
+/-- in the scope: typed by the same certificate, neither flat nor without batchers, but every
+batcher at depth ≤ 1 -/
+theorem s5_exNestBat : S5 clNestBat exNestBat ∧ ¬ C03Z.Flat clNestBat ∧ ¬ C03Z.NoBat exNestBat ∧
+    C03Z.BatShallow clNestBat exNestBat := by decide
+
+theorem goodD_exNestBat (n : Nat) :
+    GoodD clNestBat (runLoop n (exNestBat.simulateInit.runBegin 100).1) :=
+  wake5_simulate n 100 s5_exNestBat.1 C01.inv_init (by decide)
+    (fun n hn => by simp [C02V.acts, exNestBat] at hn)
+    ⟨⟨rfl, rfl, rfl, rfl, by decide⟩, by decide, fun h => by cases h⟩
+
+/-- t = 8: the inner machine 6 holds the BATCH 7 = [6, 8] (stack [4]: the inner path; its parts carry
+[1], the outer path), the unbatcher 8 holds part 3 (stack [1]) in front of the busy sink; both are
+flagged; the clock is about to advance; everything is genuinely blocked; at t = 11 the sink notifies
+and the parts flow again (part 3 delivered, part 5 unpacked) -/
+example : (runLoop 30 (exNestBat.simulateInit.runBegin 100).1).now = 8 ∧
+    ClockAdvances (runLoop 30 (exNestBat.simulateInit.runBegin 100).1) ∧
+    ((runLoop 30 (exNestBat.simulateInit.runBegin 100).1).part 7).kids = some [6, 8] ∧
+    ((runLoop 30 (exNestBat.simulateInit.runBegin 100).1).part 7).stack = [4] ∧
+    ((runLoop 30 (exNestBat.simulateInit.runBegin 100).1).part 6).stack = [1] ∧
+    BlockedW (runLoop 30 (exNestBat.simulateInit.runBegin 100).1) 6 7 ∧
+    BlockedW (runLoop 30 (exNestBat.simulateInit.runBegin 100).1) 8 3 ∧
+    Quiescent (runLoop 30 (exNestBat.simulateInit.runBegin 100).1) ∧
+    (runLoop 32 (exNestBat.simulateInit.runBegin 100).1).delivered = [0, 2, 3] := by decide
+
+example : Quiescent (runLoop 30 (exNestBat.simulateInit.runBegin 100).1) :=
+  no_lost_wakeup5 (goodD_exNestBat 30) (by decide)
+
+/-- the same batcher arrangement WITHOUT nesting (both batchers in the one outer group) is in the
+scope: flat worlds may have batchers anywhere -/
+def exFlatBat : World :=
+  { devs := [{ kind := .source, aid := 1, down := [1], cycle := 1, maxParts := some 4 },
+             { kind := .gpath, aid := 2, group := 0, up := [0], down := [6] },
+             { kind := .ginput, aid := 3, group := 0, down := [3] },
+             { kind := .batcher, aid := 4, up := [2], down := [4], bsize := some 2 },
+             { kind := .batcher, aid := 5, up := [3], down := [5] },
+             { kind := .goutput, aid := 6, group := 0, up := [4] },
+             { kind := .gpath, aid := 7, group := 1, up := [1], down := [10] },
+             { kind := .ginput, aid := 8, group := 1, down := [8] },
+             { kind := .handler, aid := 9, up := [7], down := [9], cycle := 1 },
+             { kind := .goutput, aid := 10, group := 1, up := [8] },
+             { kind := .sink, aid := 11, up := [6], cycle := 10 }],
+    groups := [{ paths := [1], input := 2, output := 5 }, { paths := [6], input := 7, output := 9 }],
+    assets := [.dev 0, .dev 1, .dev 2, .dev 3, .dev 4, .dev 5, .dev 6, .dev 7, .dev 8, .dev 9, .dev 10] }
+
+def clFlatBat : List (List Nat) := [[], [], [0], [0], [0], [0], [], [1], [1], [1], []]
+
+theorem s5_exFlatBat : S5 clFlatBat exFlatBat ∧ ¬ S4 exFlatBat ∧ C03Z.Flat clFlatBat ∧
+    ¬ C03Z.NoBat exFlatBat := by decide
+
+theorem goodD_exFlatBat (n : Nat) :
+    GoodD clFlatBat (runLoop n (exFlatBat.simulateInit.runBegin 100).1) :=
+  wake5_simulate n 100 s5_exFlatBat.1 C01.inv_init (by decide)
+    (fun n hn => by simp [C02V.acts, exFlatBat] at hn)
+    ⟨⟨rfl, rfl, rfl, rfl, by decide⟩, by decide, fun h => by cases h⟩
 
 end C03W
 end SimProc
